@@ -259,10 +259,22 @@ Section Model.
     k_trcl : option (trparams T);
     k_u : option Z;
     k_rho : option string;
-    k_mat : option string
+    k_mat : option string;
+    k_impmap : list (string * T)    (* imp_by_particle, in insertion order *)
   }.
 
-  Definition kws0 : kws := mkKws None None None None None None None None None.
+  Definition kws0 : kws := mkKws None None None None None None None None None [].
+
+  (* max(d.values()) of a non-empty dictionary: the first largest value *)
+  Definition max_values (d : list (string * T)) : option T :=
+    match map snd d with
+    | [] => None
+    | x :: r => Some (fold_left (fun m y => if sltb Sc m y then y else m) r x)
+    end.
+
+  (* for particle in particles: imp_by_particle[particle] = x *)
+  Definition assign (ps : list string) (x : T) (d : list (string * T)) : list (string * T) :=
+    fold_left (fun d p => dict_set String.eqb p x d) ps d.
 
   Definition identity9 : list T :=
     [s1 Sc; s0 Sc; s0 Sc; s0 Sc; s1 Sc; s0 Sc; s0 Sc; s0 Sc; s1 Sc].
@@ -359,35 +371,34 @@ Section Model.
     match rest with [] => Err EIndex | v :: _ => Ok v end.
 
   (* one iteration of parse_keywords' loop on keyword token [elt]: the code's
-     substring dispatch, in the code's order *)
+     dispatch, in the code's order *)
   Definition kw_step (elt : string) (rest : list string) (k : kws) : res (kws * nat) :=
     if String.prefix "imp" elt then
       do v <- pop1 rest;
       do x <- of_opt EValue (fl P v);
-      let imp := match k_imp k with
-                 | Some old => if sltb Sc x old then old else x   (* max(importance, old) *)
-                 | None => x
-                 end in
-      Ok (mkKws (Some imp) (k_fbounds k) (k_funivs k) (k_fparams k) (k_lat k) (k_trcl k) (k_u k) (k_rho k) (k_mat k), 1%nat)
+      (* a later entry replaces an earlier one for the same particle; the
+         importance is the largest over the particles *)
+      let m := assign (imp_particles elt) x (k_impmap k) in
+      Ok (mkKws (max_values m) (k_fbounds k) (k_funivs k) (k_fparams k) (k_lat k) (k_trcl k) (k_u k) (k_rho k) (k_mat k) m, 1%nat)
     else if contains_sub "fill" elt then
       do (b, u, p, n) <- parse_fill (contains_char "*" elt) rest;
-      Ok (mkKws (k_imp k) b (Some u) (Some p) (k_lat k) (k_trcl k) (k_u k) (k_rho k) (k_mat k), n)
+      Ok (mkKws (k_imp k) b (Some u) (Some p) (k_lat k) (k_trcl k) (k_u k) (k_rho k) (k_mat k) (k_impmap k), n)
     else if contains_sub "lat" elt then
       do z <- parse_lat rest;
-      Ok (mkKws (k_imp k) (k_fbounds k) (k_funivs k) (k_fparams k) (Some z) (k_trcl k) (k_u k) (k_rho k) (k_mat k), 1%nat)
+      Ok (mkKws (k_imp k) (k_fbounds k) (k_funivs k) (k_fparams k) (Some z) (k_trcl k) (k_u k) (k_rho k) (k_mat k) (k_impmap k), 1%nat)
     else if contains_sub "trcl" elt then
       do (p, n) <- parse_trcl (contains_char "*" elt) rest;
-      Ok (mkKws (k_imp k) (k_fbounds k) (k_funivs k) (k_fparams k) (k_lat k) (Some p) (k_u k) (k_rho k) (k_mat k), n)
-    else if contains_sub "u" elt then
+      Ok (mkKws (k_imp k) (k_fbounds k) (k_funivs k) (k_fparams k) (k_lat k) (Some p) (k_u k) (k_rho k) (k_mat k) (k_impmap k), n)
+    else if String.eqb elt "u" then
       do v <- pop1 rest;
       do x <- of_opt EValue (fl P v);
-      Ok (mkKws (k_imp k) (k_fbounds k) (k_funivs k) (k_fparams k) (k_lat k) (k_trcl k) (Some (Z.abs (tz P x))) (k_rho k) (k_mat k), 1%nat)   (* abs(int(float(v))): U=-n is universe n *)
+      Ok (mkKws (k_imp k) (k_fbounds k) (k_funivs k) (k_fparams k) (k_lat k) (k_trcl k) (Some (Z.abs (tz P x))) (k_rho k) (k_mat k) (k_impmap k), 1%nat)   (* abs(int(float(v))): U=-n is universe n *)
     else if contains_sub "rho" elt then
       do v <- pop1 rest;
-      Ok (mkKws (k_imp k) (k_fbounds k) (k_funivs k) (k_fparams k) (k_lat k) (k_trcl k) (k_u k) (Some v) (k_mat k), 1%nat)
+      Ok (mkKws (k_imp k) (k_fbounds k) (k_funivs k) (k_fparams k) (k_lat k) (k_trcl k) (k_u k) (Some v) (k_mat k) (k_impmap k), 1%nat)
     else if contains_sub "mat" elt then
       do v <- pop1 rest;
-      Ok (mkKws (k_imp k) (k_fbounds k) (k_funivs k) (k_fparams k) (k_lat k) (k_trcl k) (k_u k) (k_rho k) (Some v), 1%nat)
+      Ok (mkKws (k_imp k) (k_fbounds k) (k_funivs k) (k_fparams k) (k_lat k) (k_trcl k) (k_u k) (k_rho k) (Some v) (k_impmap k), 1%nat)
     else Ok (k, O).
 
   (* parse_keywords on the tokens in reading order *)
